@@ -43,8 +43,6 @@ pub assume_specification<'a> [std::str::from_utf8] (v: &'a [u8]) -> (r: Result<&
         r is Ok ==> r->Ok_0.spec_bytes() == v@;
 pub assume_specification<T> [std::option::Option::<T>::or] (a: Option<T>, b: Option<T>) -> (r: Option<T>)
     ensures r == (if a is Some { a } else { b });
-pub assume_specification<T> [std::option::Option::<T>::replace] (o: &mut Option<T>, value: T) -> (r: Option<T>)
-    ensures r == *old(o), *final(o) == Some(value);
 pub assume_specification<T: PartialEq> [<[T]>::contains] (s: &[T], x: &T) -> (r: bool)
     ensures r == s@.contains(*x);
 pub assume_specification<'a, T: Copy> [std::option::Option::<&'a T>::copied] (a: Option<&'a T>) -> (r: Option<T>)
@@ -300,6 +298,10 @@ pub open spec fn spec_uri_shape_ok(scheme: bool, authority: bool, path: bool) ->
     if scheme { authority && path } else { !(authority && path) }
 }
 pub mod http { #[verifier::external_body] pub struct Error { x: u8 } }
+// `impl From<header::MaxSizeReached> for http::Error` (http error.rs)
+impl From<MaxSizeReached> for http::Error {
+    #[verifier::external_body] fn from(e: MaxSizeReached) -> (r: http::Error) { unimplemented!() }
+}
 pub mod uri { pub use super::Parts; }
 
 // ===== Extensions (only `get::<T>()` is used) =====
@@ -354,27 +356,11 @@ impl HeaderMap {
             final(self).keys_len() == old(self).keys_len() + (if r { 0nat } else { 1nat }),
             r == spec_hm_has(old(self).entries(), key.bytes()),
     { unimplemented!() }
-    #[verifier::external_body]
-    pub fn new() -> (r: HeaderMap)
-        ensures r.entries().len() == 0, r.keys_len() == 0,
-    { unimplemented!() }
-    // the non-panicking variants (http >= 1.0)
+    // the non-panicking variant (http >= 1.0), used once units/headers.fix.min.diff is applied
     #[verifier::external_body]
     pub fn try_with_capacity(capacity: usize) -> (r: Result<HeaderMap, MaxSizeReached>)
         ensures r is Ok <==> capacity + capacity / 3 <= HEADER_MAP_MAX_SIZE,
             r is Ok ==> r->Ok_0.entries().len() == 0 && r->Ok_0.keys_len() == 0,
-    { unimplemented!() }
-    #[verifier::external_body]
-    pub fn try_append(&mut self, key: HeaderName, value: HeaderValue) -> (r: Result<bool, MaxSizeReached>)
-        ensures r is Ok <==> old(self).keys_len() < 24576,
-            r is Ok ==> final(self).entries() == spec_hm_append(old(self).entries(), key.bytes(), value.bytes()),
-            r is Ok ==> final(self).keys_len() == old(self).keys_len() + (if r->Ok_0 { 0nat } else { 1nat }),
-            r is Ok ==> r->Ok_0 == spec_hm_has(old(self).entries(), key.bytes()),
-    { unimplemented!() }
-    // `get_all(&str).iter()`: all values of that name, in order
-    #[verifier::external_body]
-    pub fn get_all<'a>(&'a self, key: &str) -> (r: GetAll<'a>)
-        ensures r.values() == spec_hm_values(self.entries(), key.spec_bytes()),
     { unimplemented!() }
     // `get(&str)`: first value of that name; `None` also when `key` is not a valid header name
     #[verifier::external_body]
@@ -388,28 +374,6 @@ impl HeaderMap {
     pub fn is_empty(&self) -> (r: bool) ensures r == (self.entries().len() == 0) { unimplemented!() }
 }
 #[verifier::external_body] pub struct MaxSizeReached { x: u8 }
-pub open spec fn spec_hm_values(e: Seq<(Seq<u8>, Seq<u8>)>, name: Seq<u8>) -> Seq<Seq<u8>>
-    decreases e.len()
-{
-    if e.len() == 0 { Seq::empty() } else if e[0].0 == name { seq![e[0].1] + spec_hm_values(e.skip(1), name) } else { spec_hm_values(e.skip(1), name) }
-}
-#[verifier::external_body] pub struct GetAll<'a> { p: std::marker::PhantomData<&'a u8> }
-#[verifier::external_body] pub struct ValueIter<'a> { p: std::marker::PhantomData<&'a u8> }
-impl<'a> GetAll<'a> {
-    pub uninterp spec fn values(&self) -> Seq<Seq<u8>>;
-    #[verifier::external_body]
-    pub fn iter(&self) -> (r: ValueIter<'a>) ensures r.rest() == self.values() { unimplemented!() }
-}
-impl<'a> ValueIter<'a> {
-    pub uninterp spec fn rest(&self) -> Seq<Seq<u8>>;
-    #[verifier::external_body]
-    pub fn next(&mut self) -> (r: Option<&'a HeaderValue>)
-        ensures match r {
-            Some(x) => old(self).rest().len() > 0 && x.bytes() == old(self).rest()[0] && final(self).rest() == old(self).rest().skip(1),
-            None => old(self).rest().len() == 0 && final(self).rest() == old(self).rest(),
-        }
-    { unimplemented!() }
-}
 pub mod header {
     #[allow(unused_imports)] use super::*;
     // http::header::IntoIter<T>: documented to yield `(Some(name), v1), (None, v2), …` — the name only with the
